@@ -128,6 +128,14 @@ CLAIMED['C18'] = dict(
          'neither guard can be copied or moved. Inspection beyond the window is excluded by C03.',
     ref='5/C18')
 
+CLAIMED['C12'] = dict(
+    technique='abstract stack execution of the builder hooks + soundness of handler selection read from instantiated types on witness grammars + AST shape of parse()/transformers',
+    text='Claims builder discipline and selection, not the whole-run statement: every instantiated handler hook pushes/pops exactly one frame, attaches only in success after the pop by appending to the '
+         'frame below, and stamps the span with the input positions; for witness grammars (unselected chains of depth 1..12 above a selected rule - beyond the leaf-optimisation depth of 8 -, recursion, '
+         'store_all with internal sequences) the handler chosen for each rule is selected iff control is enabled and the selector selects it, and the frame-less leaf optimisation is only used when no '
+         'selected rule is reachable below; parse() returns the root iff the plain parse succeeded; transformers as documented. Together with C08 this excludes leftover nodes of backtracked or aborted branches.',
+    ref='5/C12')
+
 NOT_YET = 'check not built yet in this round (see DESIGN.md section 10 for the order of construction); no claim is made'
 
 NA_REASONS = {}
